@@ -167,11 +167,12 @@ if __name__ == "__main__":
             run.violation({"what": "num_threads(%d) expected '%s'" % (k, want), "got": got[:200], "harness": texts[i][1]})
     # small registers additionally go through the model (multi-threaded register vs Coq model)
     # ... with a histogram of only a few shots per outcome at the end (replayed in the model with the recorded draws)
-    small = [(s, with_threads(a + [("apply", ("h", (1 << n) - 1)), ("sample", run.rng.choice([1 << n, 3 << n, 5])), ("sample", 0)],
+    small = [(s, with_threads(a + [("apply", ("h", (1 << n) - 1)), ("dump",), ("sample", run.rng.choice([1 << n, 3 << n, 5])), ("sample", 0)],
                               run.rng.choice(ks)))
              for s, a, n in bases if 1 <= n <= 6]
     small += regcheck.threaded_core(run.rng, tier)
-    n2, dis, _ = regcheck.run_histories(run, binary, small, PROP, regcheck.oracle_valid_state,
+    n2, dis, _ = regcheck.run_histories(run, binary, small, PROP,
+                                        lambda acts, recs: regcheck.oracle_valid_state(acts, recs) + regcheck.oracle_draws(acts, recs),
                                         "C08 multi-threaded register vs model", "C08_instances")
     cs = [generic.Case(t[:300], None, None, None, kind=m[1].split("#")[0]) for (_, t), m in zip(texts, meta)]
     generic.finish(run, PROP, au, cs, len(texts) + n2, dis,
